@@ -5,6 +5,12 @@
 //! The refill helper `seq_io::fill_buf` is cut by a stub that asserts it is never reached (the end of
 //! the input is in view, so a refill cannot be needed): the cut is itself a proof obligation.
 //! (C04, C03 via the sequential reference, C02/C01 contents, C06 built-in checks)
+//!
+//! NOT REGISTERED (tier=pilot): every instance tried (two calls: 2400 s timeout at 9.5 GB; one call +
+//! post-state assertions: 22 GB after 2000 s; vectors with spare capacity) is beyond the solver here.
+//! The pushes into `RecordSet::buf_positions` happen under symbolic conditions inside the loop of
+//! `read_record_set_exact`, which makes the vector's length symbolic at every later access - the same
+//! effect that was measured in isolation on the FASTA resume kernel (DESIGN §13.8).
 use crate::c09::RecPolicy;
 use crate::fqk::*;
 use crate::nd::Nd;
